@@ -12,6 +12,9 @@ spec: {"schema": <raw dict> | {"files": {name: dict}, "entry": name}, "phases": 
        "carriers": [{"id", "module", "name", "call"}] process-wide containers to snapshot right before and right after the run
    or {"sequence": [spec, spec, ...]}: the runs are executed one after the other IN THIS PROCESS (multi-file schemas with the same
        content share one directory, so that file-keyed caches are shared too)
+   or {"reuse": spec, "runs": n}: the configuration objects (EngineConfig / ExecutionConfig / NetworkConfig / GenerationConfig / Override)
+       and the loaded schema object are built ONCE and handed to n engine runs one after the other (what a caller that keeps its
+       objects does); every run carries "cfg_before" / "cfg_after": deep field-by-field dumps of these objects
 result: {"runs": [{"requests": [...], "failures": [...], "entropy": [...], "seed_calls": [...], "snap_before": [[site, key, value]..], "snap_after": [...]}]}
 
 What is recorded besides the traffic:
@@ -209,6 +212,62 @@ def snapshot(carriers) -> list:
     return out
 
 
+def dump_objects(obj, path: str, out: list, depth: int = 0) -> None:
+    """Deep dump: [field path, printable value]; dataclasses field by field, hypothesis.settings by their attribute values,
+    containers element by element, anything else by type and identity (the objects are kept alive by the configuration)."""
+    import dataclasses
+    import enum
+
+    import hypothesis
+    from hypothesis._settings import all_settings
+
+    if depth > 8:
+        out.append([path, "<deep>"])
+    elif obj is None or isinstance(obj, (bool, int, float, str, bytes)):
+        out.append([path, repr(obj)])
+    elif isinstance(obj, enum.Enum):
+        out.append([path, f"{type(obj).__name__}.{obj.name}"])
+    elif isinstance(obj, hypothesis.settings):
+        out.append([path + "#type", "hypothesis.settings"])
+        for name in all_settings:
+            dump_objects(getattr(obj, name), f"{path}.{name}", out, depth + 1)
+    elif dataclasses.is_dataclass(obj) and not isinstance(obj, type):
+        out.append([path + "#type", type(obj).__qualname__])
+        for f in dataclasses.fields(obj):
+            dump_objects(getattr(obj, f.name, "<unset>"), f"{path}.{f.name}", out, depth + 1)
+    elif isinstance(obj, dict):
+        out.append([path + "#len", str(len(obj))])
+        for k in sorted(obj, key=repr):
+            dump_objects(obj[k], f"{path}[{k!r}]", out, depth + 1)
+    elif isinstance(obj, (list, tuple)):
+        out.append([path + "#len", str(len(obj))])
+        for i, v in enumerate(obj):
+            dump_objects(v, f"{path}[{i}]", out, depth + 1)
+    elif isinstance(obj, (set, frozenset)):
+        out.append([path + "#len", str(len(obj))])
+        for i, v in enumerate(sorted(obj, key=repr)):
+            dump_objects(v, f"{path}{{{i}}}", out, depth + 1)
+    elif callable(obj) and hasattr(obj, "__qualname__"):
+        out.append([path, f"{getattr(obj, '__module__', '?')}.{obj.__qualname__}@{_token(obj)}"])
+    else:
+        out.append([path, f"<{type(obj).__qualname__}>@{_token(obj)}"])
+
+
+def dump_inputs(config, schema) -> list:
+    """The input objects of a run as the caller sees them."""
+    import hashlib
+
+    out: list = []
+    dump_objects(config, "config", out)
+    for name in ("location", "base_url", "app", "test_function", "generation_config", "output_config", "rate_limiter"):
+        if hasattr(schema, name):
+            dump_objects(getattr(schema, name), f"schema.{name}", out)
+    raw = getattr(schema, "raw_schema", None)
+    if isinstance(raw, dict):
+        out.append(["schema.raw_schema#sha", hashlib.sha1(json.dumps(raw, sort_keys=True, default=repr).encode()).hexdigest()[:16]])
+    return out
+
+
 def named_strategy(name: str):
     from hypothesis import strategies as st
 
@@ -249,8 +308,9 @@ def responder_for(name, slow_prefix=None, slow_s=0.0):
     return {"ok": ok, "fail500": fail500}[name]
 
 
-def run_spec(spec: dict) -> dict:
-    """One engine run (deterministic loopback API); returns traffic + entropy records."""
+def run_spec(spec: dict, shared: dict | None = None) -> dict:
+    """One engine run (deterministic loopback API); returns traffic + entropy records.  With `shared` (a dict the caller keeps) the
+    recorder, the schema object and the configuration objects are built by the first call and REUSED by the later ones."""
     import hypothesis
 
     import schemathesis
@@ -284,10 +344,13 @@ def run_spec(spec: dict) -> dict:
         _CURRENT["seed_calls"] = []
         _CURRENT["boundary"] = []
         _CURRENT["phase"] = None
-    rec = Recorder(responder_for(spec.get("responder", "ok"), spec.get("slow_prefix"), spec.get("slow_s", 0.0)))
+    reuse = shared is not None and "config" in shared
+    rec = shared["rec"] if reuse else Recorder(responder_for(spec.get("responder", "ok"), spec.get("slow_prefix"), spec.get("slow_s", 0.0)))
     tmp = None
     registered: list = []
     try:
+        if reuse:
+            return _execute(spec, shared["schema"], shared["config"], rec, registered)
         sch = spec.get("schema")
         generation = GenerationConfig(modes=[GenerationMode(m) for m in spec.get("modes", ["positive"])])
         gen_spec = spec.get("generation")
@@ -328,14 +391,18 @@ def run_spec(spec: dict) -> dict:
         kw = {}
         if spec.get("step_count") is not None:
             kw["stateful_step_count"] = spec["step_count"]
-        settings = hypothesis.settings(
-            max_examples=spec.get("max_examples", 4),
-            deadline=None,
-            database=None,
-            derandomize=bool(spec.get("derandomize", False)),
-            suppress_health_check=list(hypothesis.HealthCheck),
-            **kw,
-        )
+        if spec.get("settings") == "minimal":
+            # what a user of the Python API typically writes: everything else stays at Hypothesis' defaults
+            settings = hypothesis.settings(max_examples=spec.get("max_examples", 4), deadline=None, database=None, **kw)
+        else:
+            settings = hypothesis.settings(
+                max_examples=spec.get("max_examples", 4),
+                deadline=None,
+                database=None,
+                derandomize=bool(spec.get("derandomize", False)),
+                suppress_health_check=list(hypothesis.HealthCheck),
+                **kw,
+            )
         exe = ExecutionConfig(
             phases=[PhaseName.from_str(p) for p in spec["phases"]],
             hypothesis_settings=settings,
@@ -352,6 +419,31 @@ def run_spec(spec: dict) -> dict:
             override = Override(query=dict(ov.get("query", {})), headers=dict(ov.get("headers", {})), cookies=dict(ov.get("cookies", {})),
                                 path_parameters=dict(ov.get("path_parameters", {})))
         config = EngineConfig(execution=exe, network=NetworkConfig(headers=dict(spec.get("headers") or {})), override=override)
+        if shared is not None:
+            shared.update({"rec": rec, "schema": schema, "config": config, "tmp": tmp})
+            tmp = None
+        return _execute(spec, schema, config, rec, registered, snap_before)
+    finally:
+        for fmt in registered:
+            try:
+                from schemathesis.specs.openapi import unregister_string_format
+
+                unregister_string_format(fmt)
+            except Exception:  # noqa: BLE001
+                pass
+        if shared is None:
+            rec.close()
+        if tmp:
+            shutil.rmtree(tmp, ignore_errors=True)
+
+
+def _execute(spec: dict, schema, config, rec, registered: list, snap_before=None) -> dict:
+    from schemathesis.engine import events, from_schema
+
+    if snap_before is None:
+        snap_before = snapshot(spec.get("carriers"))
+    if True:
+        cfg_before = dump_inputs(config, schema) if spec.get("dump_inputs") else []
         failures = []
         errors = []
         phase_of_request = []
@@ -371,6 +463,7 @@ def run_spec(spec: dict) -> dict:
                     phase_of_request.append([ev.phase.name.name, len(rec.requests)])
         reqs = rec.take()
         snap_after = snapshot(spec.get("carriers"))
+        cfg_after = dump_inputs(config, schema) if spec.get("dump_inputs") else []
         with _LOCK:
             entropy = [dict(e) for e in _CURRENT["entropy"]]
             seed_calls = list(_CURRENT["seed_calls"])
@@ -385,18 +478,9 @@ def run_spec(spec: dict) -> dict:
             "boundary_draws": boundary,
             "snap_before": snap_before,
             "snap_after": snap_after,
+            "cfg_before": cfg_before,
+            "cfg_after": cfg_after,
         }
-    finally:
-        for fmt in registered:
-            try:
-                from schemathesis.specs.openapi import unregister_string_format
-
-                unregister_string_format(fmt)
-            except Exception:  # noqa: BLE001
-                pass
-        rec.close()
-        if tmp:
-            shutil.rmtree(tmp, ignore_errors=True)
 
 
 def main() -> int:
@@ -421,6 +505,16 @@ def main() -> int:
         finally:
             for d in dirs.values():
                 shutil.rmtree(d, ignore_errors=True)
+    elif "reuse" in spec:
+        # the SAME configuration / schema objects for every run (a caller that keeps its objects)
+        shared: dict = {}
+        try:
+            runs = [run_spec(spec["reuse"], shared) for _ in range(spec.get("runs", 2))]
+        finally:
+            if shared.get("rec") is not None:
+                shared["rec"].close()
+            if shared.get("tmp"):
+                shutil.rmtree(shared["tmp"], ignore_errors=True)
     else:
         runs = [run_spec(spec) for _ in range(spec.get("repeat", 1))]
     json.dump({"runs": runs}, sys.stdout)
